@@ -84,8 +84,68 @@ def http_scenario(sid, hist, rng):
     return {"id": sid, "stubs": 2, "tokens": {}, "authz": [], "authzDefault": "deny", "webhookAuth": True, "ttlOkMs": HTTP_TTL_OK if sid % 3 else 0, "ttlFailMs": HTTP_TTL_FAIL if sid % 3 else 0, "steps": steps}
 
 
+def ep_cluster(name, stubs, off):
+    return {"name": name, "aliases": [], "servers": [{"stub": s, "disabled": s in off} for s in sorted(stubs)], "policies": [{"resources": ["*"], "nonres": ["*"], "subset": [], "flow": ""}], "flows": [], "gates": ""}
+
+
+def ep_scenario(sid, hist, rng):
+    """AuthEndpoints.tla history over REAL HTTP: three stub upstreams; e0, e2 start as endpoints of ca, e1 of cb; endpoints are handed from one
+    cluster to the other (removed from one server list, then added to the other), disabled, enabled; every request carries a NEW token (and
+    every second one a new impersonated user), so that a review is needed each time"""
+    epof = {0: "ca", 1: "cb", 2: "ca"}
+    off = set()
+    mask = lambda c: sum(1 << s for s in epof if epof[s] == c and s not in off)
+    ready = lambda c: sorted(s for s in epof if epof[s] == c and s not in off)
+
+    def put(c):
+        return [{"k": "apply", "cluster": ep_cluster(c, [s for s in epof if epof[s] == c], off)}, {"k": "own", "h": c, "c": mask(c)}, {"k": "waitready", "name": c, "ready": ready(c)}]
+    steps = put("ca") + put("cb")
+    n = 0
+    for h in hist:
+        e = int(h["e"][1:]) if h["e"] else -1
+        if h["k"] == "req":
+            n += 1
+            c = "c" + h["c"].lower()
+            st = {"k": "req", "id": "r%d" % n, "host": c, "method": "GET", "path": "/api/v1/namespaces/d/pods", "token": "token-%d-%d" % (sid, n), "resp": {"status": 200, "bodySize": 2}, "h": c}
+            if n % 2 == 0:
+                st["headers"] = [["Impersonate-User", "bob-%d" % n]]
+            steps.append(st)
+        elif h["k"] == "epmove":
+            old, new = epof[e], "c" + h["c"].lower()
+            if old == new:
+                continue
+            if len([s for s in epof if epof[s] == old]) == 1:
+                continue      # (a cluster keeps at least one listed server)
+            epof[e] = "nowhere"
+            steps += put(old)
+            epof[e] = new
+            steps += put(new)
+        elif h["k"] == "epflip":
+            off.symmetric_difference_update({e})
+            steps += put(epof[e])
+    steps.append({"k": "req", "id": "end-marker", "host": "nobody", "method": "GET", "path": "/version", "token": "t"})
+    return {"id": sid, "stubs": 3, "tokens": {}, "authz": [], "authzDefault": "deny", "webhookAuth": True, "ttlOkMs": HTTP_TTL_OK if sid % 3 else 0, "ttlFailMs": HTTP_TTL_FAIL if sid % 3 else 0,
+            "steps": steps, "byeps": True}
+
+
 def http_part(v, tier, seed, rng, wd, hists, replay_sc=None):
     scs = [replay_sc] if replay_sc is not None else [http_scenario(500001 + i, h, rng) for i, h in enumerate(hists)]
+    estates = etrans = 0
+    if replay_sc is None:
+        for variant, expect in (("fresh", False), ("pinned", True)):
+            em = vlib.tlc("dataplane", "AuthEndpoints", "AuthEndpoints.cfg", workers=4, timeout=600, consts={"Variant": '"%s"' % variant, "MaxSteps": 6 if tier == "quick" else 8})
+            if bool(em.violation) != expect:
+                raise Infra("AuthEndpoints.tla variant %s: unexpected result %s" % (variant, em.violated()))
+            estates, etrans = estates + em.distinct, etrans + em.generated
+        ne = 30 if tier == "quick" else 400
+        eg = vlib.tlc("dataplane", "AuthEndpointsGen", "AuthEndpointsGen.cfg", workers=1, timeout=600, simulate="num=%d" % (3 * ne), depth=10, tlc_seed=seed)
+        eh = [h for h in {vlib.canon(h): h for h in eg.json_prints("HIST")}.values() if sum(1 for x in h if x["k"] == "req") >= 3]
+        rng.shuffle(eh)
+        # directed: first token, hand-over of the endpoint that reviewed it (either one), new tokens
+        for mv in ("e0", "e2"):
+            eh.insert(0, [{"k": "req", "c": "A", "e": ""}, {"k": "req", "c": "A", "e": ""}, {"k": "epmove", "c": "B", "e": mv}] + [{"k": "req", "c": "A", "e": ""}] * 4 + [{"k": "req", "c": "B", "e": ""}] * 3)
+            eh.insert(0, [{"k": "req", "c": "A", "e": ""}, {"k": "req", "c": "A", "e": ""}, {"k": "epflip", "c": "", "e": mv}] + [{"k": "req", "c": "A", "e": ""}] * 4)
+        scs += [ep_scenario(520001 + i, h, rng) for i, h in enumerate(eh[:ne])]
     binp = os.path.join(wd, "proxyh.test")
     vlib.go_test_build("./proxyh", binp)
     traces, crashed = vlib.run_test_driver(binp, scs, wd, timeout=900, name="http")
@@ -96,6 +156,7 @@ def http_part(v, tier, seed, rng, wd, hists, replay_sc=None):
         v.violation("crash-%s" % sid, {"scenario": sc_by_id[sid], "kind": "http", "what": "gateway crashed", "stderr_tail": tail})
     tl = []
     for sid, t in traces.items():
+        byeps = bool(sc_by_id[sid].get("byeps"))
         hof = {s["id"]: s["h"] for s in sc_by_id[sid]["steps"] if s["k"] == "req" and "h" in s}
         evs = []
         cur = None
@@ -115,7 +176,7 @@ def http_part(v, tier, seed, rng, wd, hists, replay_sc=None):
             elif e["k"] == "response" and cur is not None and e["id"] == cur["id"]:
                 evs.append(cur)
                 cur = None
-        tl.append({"id": int(sid), "owner": {"a": 0, "b": 1, "x": 0}, "events": evs})
+        tl.append({"id": int(sid), "owner": {"a": 0, "b": 1, "x": 0}, "eps": {"ca": 0, "cb": 0}, "byeps": byeps, "events": evs})
     tr_p = os.path.join(wd, "authhttp.ndjson")
     vlib.write_ndjson(tr_p, tl)
     tv = vlib.tlc("dataplane", "TraceAuthHttp", "TraceAuthHttp.cfg", workers=8, timeout=1200, consts={"TraceFile": '"%s"' % tr_p})
@@ -129,7 +190,7 @@ def http_part(v, tier, seed, rng, wd, hists, replay_sc=None):
             v.violation("http-%s" % sid, {"scenario": sc_by_id[sid], "kind": "http", "rejected_request": by_id[sid]["events"][line - 1], "events_before": by_id[sid]["events"][max(0, line - 6):line - 1],
                                           "what": "over real HTTP: a review went to a cluster the request's host does not belong to, or the request was forwarded to / acts as an identity given by another cluster"})
     reqs = sum(1 for t in tl for e in t["events"] if e["k"] == "req")
-    return tv.distinct, tv.generated, reqs, len(tl) - nrej
+    return tv.distinct + estates, tv.generated + etrans, reqs, len(tl) - nrej
 
 
 def main(tier, replay):
